@@ -1,8 +1,33 @@
 (* C13 — I2P base32/base64: decode(encode x) = x and only the I2P alphabet is accepted. *)
 From Model Require Import Bytes Prim Base.
 From Gen Require Import Consts.
-From Proofs Require Import BytesLemmas BaseProofs.
+From Proofs Require Import BytesLemmas BaseProofs BaseRT.
 Open Scope N_scope.
+
+(* decode (encode x) = x, for EVERY byte string: base64, padded base32 (through the library's
+   DecodeString with its padding pre-check) and unpadded base32 (DecodeStringNoPadding) *)
+Theorem C13_base64_roundtrip : forall x, wf x -> b64_decode (b64_encode x) = Ok x.
+Proof. exact b64_decode_encode. Qed.
+Print Assumptions C13_base64_roundtrip.
+Theorem C13_base32_roundtrip : forall x, wf x -> b32_decode_string (b32_encode true x) = Ok x.
+Proof. exact b32_decode_string_encode. Qed.
+Theorem C13_base32_unpadded_roundtrip : forall x, wf x -> b32_decode_nopad (b32_encode false x) = Ok x.
+Proof. exact b32_decode_nopad_encode. Qed.
+Print Assumptions C13_base32_unpadded_roundtrip.
+(* the unpadded form is the padded form without its '=' characters; its length is
+   8*floor(n/5) + {0,2,4,5,7}[n mod 5]; it contains alphabet characters only *)
+Theorem C13_base32_padding_only_at_end : forall x,
+  b32_encode true x = b32_encode false x ++ repeatN PAD (pads32 (length x)).
+Proof. intros x. apply b32_encode_pad_split. auto. Qed.
+Theorem C13_base32_unpadded_length : forall x,
+  length (b32_encode false x) = (8 * (length x / 5) + chars32 (length x mod 5))%nat.
+Proof. intros x. apply b32_encode_nopad_length. auto. Qed.
+Theorem C13_base32_output_alphabet : forall x, wf x ->
+  Forall (fun c => is_newline c = false /\ c <> PAD /\ c < 128) (b32_encode false x).
+Proof. intros x W. apply b32_encode_nopad_clean. exact W. Qed.
+Example C13_roundtrip_nonvacuous : b64_encode [1; 2; 3; 4] = [65; 81; 73; 68; 66; 65; 61; 61] /\
+  b32_encode true [255] = [55; 52; 61; 61; 61; 61; 61; 61].
+Proof. vm_compute. auto. Qed.
 
 (* a group of bytes is one number written in base 32 / 64: digits and value are inverse *)
 Theorem C13_digits_inverse : forall b k v, 1 < b -> undigits b (digits b k v) = v mod b ^ N.of_nat k.
